@@ -29,7 +29,7 @@ MODEL_FILES = ['MaltModel/Conv/JumpCommon.lean', 'MaltModel/Conv/Break.lean', 'M
                'MaltModel/Conv/Return.lean', 'MaltModel/Conv/JumpsSem.lean', 'MaltModel/Conv/JumpToSem.lean',
                'MaltModel/Sem/CoreLemmas.lean', 'MaltModel/Proofs/JumpsCommon.lean', 'MaltModel/Proofs/JumpsBreak.lean',
                'MaltModel/Proofs/JumpsContinue.lean', 'MaltModel/Proofs/JumpsReturn.lean',
-               'MaltModel/Proofs/JumpsSyntax.lean', 'MaltModel/Proofs/JumpsFresh.lean', 'MaltModel/Drv/C01J.lean']
+               'MaltModel/Proofs/JumpsSyntax.lean', 'MaltModel/Proofs/JumpsFresh.lean', 'MaltModel/Proofs/JumpsRewrite.lean', 'MaltModel/Drv/C01J.lean']
 FUEL = 4000
 CLS_EXEMPT = 'jump_in_finally'
 CLS_FINDING = 'raise_in_finally_over_jump'
@@ -615,6 +615,12 @@ def gen_programs(run, info):
     for p in sem_random_programs(random.Random(run.seed * 131 + 9), 400 if quick else 5000):
         jobs.append((p.to_json(), False, False))
     info['semrandom'] = len(jobs) - n2
+    cap = os.environ.get('C01J_MAX_PROGRAMS')      # development aid (mutation runs): stride-sample every stream
+    if cap and len(jobs) > int(cap):
+        stride = len(jobs) // int(cap) + 1
+        keep = max(20, info.get('corpus', 0) + len(EXTRA_PROGRAMS) + len(ELSE_PROGRAMS))
+        jobs = jobs[:keep] + jobs[keep::stride]
+        info['development_cap'] = int(cap)
     return jobs
 
 
@@ -739,7 +745,7 @@ def check_part(run, jobs=None):
                 dis['calls'].setdefault(w, []).append({'program': r['key'], 'model': a[2], 'real': rec['calls']})
             t = a[3]
             head = t[0]
-            if w != 'rewrite' and rec['recursive']:
+            if rec['recursive']:
                 flags = dict((x[0], x[1] == 'True') for x in t[1:] if isinstance(x, list) and len(x) == 2)
                 bump('tie:%s:%s' % (w, head))
                 if head == 'diff':
